@@ -184,6 +184,7 @@ Qed.
 Print Assumptions C01_query_meaning_tparse.
 
 (* ---- the reference meaning (Spec/Ref.v) and its numbering ---- *)
+From Coq Require Import NArith.
 From PS Require Import Spec.Ref Proofs.RefP.
 (* The run compares the query with the reference over the numbers of the distinct reference predicates:
    the numbered combination under an assignment of the numbers has the value of the combination of
